@@ -120,12 +120,7 @@ class ErrorHandling:
                     expected[value] = token_name
 
         suggestions = []
-        if len(expected) == 1:
-            # use only it
-            first_value = list(expected.keys())[0]
-            suggestions.append(first_value)
-
-        elif 1 < len(expected) < 20:
+        if 0 < len(expected) < 20:
             if self.bad_token is None:
                 # if this is the end of query, just show next expected keywords
                 return list(expected.keys())
